@@ -577,6 +577,14 @@ def oracle_c20(world):
             if len(cf) > 1 or (len(cf) == 0 and not raced):
                 V('dispose_did_not_cancel', 'interaction %d: disposing the result observable produced %d CANCEL frames' % (iid, len(cf)),
                   cancel['seq'], **facts)
+        # an adapter never cancels on its own: without a dispose() by the application there is no CANCEL frame
+        if cancel is None and ia.get('dispose_after') is None and ia.get('dispose_at') is None:
+            spont = [e for e in hb if e['k'] == 'enq' and e['ep'] == 'client' and e['f']['sid'] == sid and e['f']['type'] == 'CANCEL']
+            if spont:
+                after = next((e['f']['type'] for e in hb if e['k'] == 'rx' and e['ep'] == 'client' and e['f']['sid'] == sid
+                              and e['seq'] < spont[0]['seq'] and (e['f']['type'] == 'ERROR' or e['f'].get('complete'))), None)
+                V('spontaneous_cancel', 'interaction %d: CANCEL queued although the application never disposed the result%s'
+                  % (iid, ' (after the peer\'s %s)' % after if after else ''), spont[0]['seq'], after=after, **facts)
         # (per-interaction rules end below; the order rule follows the loop)
         # nothing is asked for on a stream after its CANCEL has been queued
         cq = next((e for e in hb if e['k'] == 'enq' and e['ep'] == 'client' and e['f']['sid'] == sid and e['f']['type'] == 'CANCEL'), None)
